@@ -6,9 +6,9 @@ package interp
 
 import (
 	"bufio"
-	"os"
 	"fmt"
 	"io"
+	"os"
 	"os/exec"
 	"strconv"
 	"strings"
@@ -16,14 +16,14 @@ import (
 )
 
 type Solver struct {
-	name    string
-	cmd     *exec.Cmd
-	in      io.WriteCloser
-	out     *bufio.Reader
-	buf     strings.Builder
-	defined map[int]bool // term ids defined in the current path scope
+	name     string
+	cmd      *exec.Cmd
+	in       io.WriteCloser
+	out      *bufio.Reader
+	buf      strings.Builder
+	defined  map[int]bool    // term ids defined in the current path scope
 	declared map[string]bool // variables declared in the current path scope
-	log     io.Writer
+	log      io.Writer
 
 	NSat, NUnsat, NUnknown int
 	Time                   time.Duration
